@@ -552,9 +552,9 @@ func genHang(c *ctx) {
 			timeout: timeout, quiet: true, bufsize: "4k", deadline: 40 * time.Second}
 		tops := stopTree(rng, root, cfg.directory)
 		counts := baselineCounts(cfg, tops, root)
-		per := c.pick(10, 80)
+		per := c.pick(18, 90)
 		for k := 0; k < per; k++ {
-			h := &hc{cfg: cfg, tops: tops, root: root, kind: kinds[c.rng.Intn(len(kinds))]}
+			h := &hc{cfg: cfg, tops: tops, root: root, kind: kinds[(k+b)%len(kinds)]} // every kind of fault in every base
 			h.dir = c.rng.Intn(2)
 			// the handshake has begun once the server has received the ACT line: faults from write #1 of c2s / #2 of s2c on
 			lo := 1
